@@ -18,6 +18,14 @@ PRELUDE = r"""
 #include <stdbool.h>
 #include <assert.h>
 #include <math.h>
+#ifdef VF_SPY
+/* a spy around every generated deserialization routine: which pointer (relative to the top-level buffer) and which size a routine is
+   handed, which size and result it hands back - the call / return actions of specs/WireMachineDes.tla */
+static struct { long at; unsigned long in; } spy_calls[1024];
+static struct { int rc; unsigned long out; } spy_rets[1024];
+static int spy_ncall, spy_nret;
+static const uint8_t* spy_base;
+#endif
 %(includes)s
 
 static char* cur;
@@ -70,7 +78,17 @@ int main(void) {
             for (size_t i = 0; i < alloc; i++) raw[i] = (uint8_t) tok();
             size_t size = declared;
             printf("{\"id\":%lu,", id);
+#ifdef VF_SPY
+            spy_base = raw; spy_ncall = 0; spy_nret = 0;
+#endif
             do_des(ti, raw, &size, prior);
+#ifdef VF_SPY
+            printf(",\"spy_calls\":[");
+            for (int i = 0; i < spy_ncall && i < 1024; i++) printf("%s{\"at\":%ld,\"size\":%lu}", i ? "," : "", spy_calls[i].at, spy_calls[i].in);
+            printf("],\"spy_rets\":[");
+            for (int i = 0; i < spy_nret && i < 1024; i++) printf("%s{\"rc\":\"%s\",\"out\":%ld}", i ? "," : "", kind(spy_rets[i].rc), spy_rets[i].rc >= 0 ? (long) spy_rets[i].out : -1L);
+            printf("],\"spy_overflow\":%d", (spy_ncall > 1024 || spy_nret > 1024) ? 1 : 0);
+#endif
             printf("}\n");
             free(raw);
         } else if (op == 'M') {
@@ -94,9 +112,31 @@ int main(void) {
 class CGen:
     """generates fill_/dump_ functions for every composite of a TypeSet"""
 
-    def __init__(self, ts):
+    def __init__(self, ts, spy=False):
         self.ts = ts
         self.tmp = 0
+        self.spy = spy
+
+    def includes(self):
+        """the generated headers; with the spy, every header is followed by wrappers of the deserialization routines it defines and by macros
+        that route every LATER call (from the headers of the types that nest it, and from the driver) through the wrapper"""
+        out = []
+        for t in self.ts.all:
+            out.append('#include "%s/%s_1_0.h"' % (self.ts.ns, t["name"]))
+            if not self.spy:
+                continue
+            for u in [t] + ([t["partner"]] if "partner" in t else []):
+                cn = self.cname(u)
+                out.append("static inline int8_t spy_%s(%s* out, const uint8_t* buf, size_t* sz) {" % (cn, cn))
+                out.append("    if (spy_ncall < 1024) { spy_calls[spy_ncall].at = (long) ((intptr_t) buf - (intptr_t) spy_base); spy_calls[spy_ncall].in = (unsigned long) *sz; }")
+                out.append("    spy_ncall++;")
+                out.append("    const int8_t rc = %s_deserialize_(out, buf, sz);" % cn)
+                out.append("    if (spy_nret < 1024) { spy_rets[spy_nret].rc = rc; spy_rets[spy_nret].out = (unsigned long) *sz; }")
+                out.append("    spy_nret++;")
+                out.append("    return rc;")
+                out.append("}")
+                out.append("#define %s_deserialize_(o, b, s) spy_%s((o), (b), (s))" % (cn, cn))
+        return "\n".join(out)
 
     def cname(self, t):
         return "%s_%s%s_1_0" % (self.ts.ns, t["name"], "_" + t["svc"] if t.get("svc") else "")
@@ -257,7 +297,7 @@ class CGen:
         return "\n".join(out)
 
     def source(self):
-        parts = [PRELUDE % {"includes": "\n".join('#include "%s/%s_1_0.h"' % (self.ts.ns, t["name"]) for t in self.ts.all)}]
+        parts = [PRELUDE % {"includes": self.includes()}]
         for t in self.ts.all + [t["partner"] for t in self.ts.all if "partner" in t]:
             parts.append(self.fill_fn(t))
             parts.append(self.dump_fn(t))
@@ -351,7 +391,7 @@ class CTarget:
     L = "c"
     kinds = True
 
-    def __init__(self, scratch, types, options=None, sanitize=False, tag="c", cc=None, extra_flags=(), uid=None):
+    def __init__(self, scratch, types, options=None, sanitize=False, tag="c", cc=None, extra_flags=(), uid=None, spy=False):
         import copy
         import pathlib
 
@@ -367,7 +407,9 @@ class CTarget:
         self.out = self.root / "out"
         generate("c", nsdir, self.out, language_options=self.options)
         src = self.root / "driver.c"
-        src.write_text(CGen(self.ts).source())
+        src.write_text(CGen(self.ts, spy=spy).source())
+        if spy:
+            extra_flags = tuple(extra_flags) + ("-DVF_SPY",)
         self.exe = self.root / "driver"
         self.sanitize = sanitize
         cc = cc or ("clang" if sanitize else "gcc")
@@ -395,7 +437,7 @@ class CTarget:
     def cmd_meta(self, cid, ti):
         return "M %x %x" % (cid, ti)
 
-    def run(self, commands, timeout=600):
+    def run(self, commands, timeout=600, _attribute=True):
         """returns {id: result dict or {'crash': text}}; a sanitizer abort / assert / crash leaves a call without a return"""
         results = {}
         pending = list(commands)
@@ -419,8 +461,18 @@ class CTarget:
                 break
             # crash / abort: the command `called` did not return (or the leak checker complained at exit)
             if called is None:
-                # abnormal exit after all commands returned (e.g. LeakSanitizer at exit): attach to the batch
+                # abnormal exit after all commands returned (LeakSanitizer reports at exit): find the first command that reproduces it in a
+                # process of its own (with the commands before it that share its object: same type index) and charge it with the report
                 results.setdefault("exit", {"crash": p.stderr[-2000:], "rc": p.returncode})
+                if _attribute and len(pending) > 1:
+                    for k, c in enumerate(pending[:400]):
+                        ti = c.split()[2]
+                        alone = [x for x in pending[:k] if x.split()[2] == ti][-2:] + [c]
+                        q = subprocess.run([str(self.exe)], input="\n".join(alone) + "\n", stdout=subprocess.PIPE, stderr=subprocess.PIPE, text=True, env=env, timeout=timeout)
+                        if q.returncode != 0:
+                            cid = int(c.split()[1], 16)
+                            results[cid] = {"id": cid, "crash": q.stderr[-1500:] or p.stderr[-1500:], "rc": q.returncode, "at_exit": True}
+                            break
                 break
             results[called] = {"id": called, "crash": p.stderr[-1500:], "rc": p.returncode}
             ids = [int(c.split()[1], 16) for c in pending]
